@@ -156,9 +156,29 @@ def run(prog: Program, rep, tier: str) -> None:
     sign_table(prog, rep, it.methods["locally_infeasible"], "self.cons_jac.T.dot(self.cons)",
                {"at_lower": "minimum", "at_upper": "maximum"}, "infeasibility-projection-signs", init_zero=False)
     active_set_masks(prog, rep)
+    evaluations_not_corrupted(prog, rep)
     implicit_funcs(prog, rep)
     projection_shape(prog, rep)
     rep.pin("closed-form formulas compared", n + rep.extra.get("implicit_formulas", 0), 17)
+
+
+def evaluations_not_corrupted(prog: Program, rep) -> None:
+    """the functions that compute these quantities never write into a (cached) evaluation of an iterate: a formula that is right
+    when first evaluated is still right afterwards."""
+    from ..own import Ownership
+    ow = Ownership(prog)
+    n = 0
+    for fi in ow.funcs:
+        if fi.module.name not in ("pygradflow.implicit_func", "pygradflow.iterate", "pygradflow.util", "pygradflow.active_set"):
+            continue
+        for sk in ow.sinks(fi):
+            if sk.kind == "flag:writeable":
+                continue
+            n += 1
+            prot = Ownership.protected(ow.sink_tokens(sk))
+            rep.check(not prot, "evaluations-not-corrupted", fi.qualname, short(sk.si.stmt),
+                      f"in-place {sk.kind} on `{U(sk.target)[:40]}` does not reach a callback result held by an iterate ({prot})", fi.loc(sk.node))
+    rep.pin("in-place operations in the formula modules", n, 5)
 
 
 def sign_table(prog: Program, rep, m: FuncInfo, operand_text: str, table: Dict[str, str], rule: str, init_zero: bool) -> None:
